@@ -51,3 +51,12 @@ Definition f_lt (a b : fbits) : bool := match f_cmp a b with Some Lt => true | _
 Definition f_gt (a b : fbits) : bool := match f_cmp a b with Some Gt => true | _ => false end.
 Definition f_le (a b : fbits) : bool := match f_cmp a b with Some Lt | Some Eq => true | _ => false end.
 Definition f_ge (a b : fbits) : bool := match f_cmp a b with Some Gt | Some Eq => true | _ => false end.
+
+(* saturating conversion to an integer range (llvm.fptosi.sat / llvm.fptoui.sat): NaN gives 0, values outside
+   [lo, hi] (also the infinities) give the nearest bound, everything else is truncated toward zero *)
+Definition f_to_Z_sat (lo hi : Z) (a : fbits) : Z :=
+  if f_is_nan a then 0
+  else match f_trunc a with
+       | Some z => if z <? lo then lo else if hi <? z then hi else z
+       | None => if f_sign a then lo else hi
+       end.
